@@ -112,6 +112,8 @@ class SharedState(object):
     def capture(self):
         snap = {}
         for label, kind, h in self.holders():
+            # the exact set of names present now: any other name found at restore time is removed
+            snap[('__allkeys__', label)] = ('keys', frozenset(vars(h).keys()), None)
             for k, v in self._items(kind, h):
                 if _immutable(v):
                     snap[(label, k)] = ('rebind', v, None)
@@ -133,7 +135,7 @@ class SharedState(object):
         bl = by_label[1]
         for label, kind, h in self.holders():
             d = vars(h)
-            if len(d) != self._nkeys.get(label):
+            if d.keys() != snap[('__allkeys__', label)][1]:
                 for k, _v in list(self._items(kind, h)):
                     if (label, k) not in snap:
                         # something new appeared (lazy attribute, hoisted scratch): remove it
@@ -141,8 +143,9 @@ class SharedState(object):
                             delattr(h, k)
                         except Exception:
                             pass
-                self._nkeys[label] = len(vars(h))
             for k, (how, v, extra) in bl.get(label, ()):
+                if how == 'keys':
+                    continue
                 if how in ('rebind', 'ident', 'big'):
                     if d.get(k, self) is not v:
                         setattr(h, k, v)
